@@ -21,6 +21,7 @@ import (
 	"fmt"
 	"math/rand"
 	"sort"
+	"strings"
 	"sync"
 	"sync/atomic"
 	"time"
@@ -985,6 +986,82 @@ func countPruneUsedWhileParked(r *vh.Run, idx int, rng *rand.Rand) {
 	_ = ca.DeleteAll()
 }
 
+// countPruneVictimKeptBusy (mode 5c, run alone after the parallel families so that every goroutine inside the count
+// prune belongs to this cache): every time the count prune waits in the pre hook of the entry it picked, that entry is
+// used.  The pass has to go on to the next least recently used entry - and it has to keep going for as long as clients
+// keep doing that: a pass that gives up leaves the cache above its limit although no cleanup has failed, and nothing
+// prunes again until the next Set.  The harness stops after a fixed number of rounds and waits until no goroutine is
+// inside the prune any more (goroutine dump, not a deadline); then the limit must hold.
+func countPruneVictimKeptBusy(r *vh.Run, idx int) {
+	count := []int{1, 2, 3, 5}[idx%4]
+	rounds := 6*(count+1) + 8 + idx%5
+	type park struct {
+		k    int
+		gate chan struct{}
+	}
+	parked := make(chan park, 16)
+	var failed atomic.Int64
+	o := cache.Opts[int, int64]{Count: count,
+		PruneFn: func(int, int64) error { return nil },
+		PrunePreFn: func(k int, v int64) {
+			p := park{k, make(chan struct{})}
+			parked <- p
+			<-p.gate
+		},
+		PrunePostFn: func(int, int64) {},
+	}
+	ca := cache.New[int, int64](o)
+	for k := 0; k <= count; k++ {
+		ca.Set(k, int64(k+1))
+		time.Sleep(300 * time.Microsecond)
+	}
+	used := 0
+	inPrune := func() bool {
+		for _, g := range vh.Dump() {
+			if strings.Contains(g.Stack, "internal/cache.(*Cache") && strings.Contains(g.Stack, "pruneCount") {
+				return true
+			}
+		}
+		return false
+	}
+	settled := false
+	for i := 0; i < 4000 && !settled; i++ {
+		select {
+		case p := <-parked:
+			if used < rounds {
+				if _, err := ca.Get(p.k); err == nil {
+					used++
+				}
+			}
+			close(p.gate)
+		default:
+			if !inPrune() {
+				// nothing parked and nobody inside the prune: look once more for a hook that was entered meanwhile
+				select {
+				case p := <-parked:
+					close(p.gate)
+				default:
+					settled = true
+				}
+			} else {
+				time.Sleep(2 * time.Millisecond)
+			}
+		}
+	}
+	if !settled {
+		r.Inconclusive(fmt.Sprintf("mode 5c: the count prune did not come to rest (limit %d)", count))
+		return
+	}
+	r.Count("busy_victim_trials", 1)
+	r.Count("busy_victim_uses", used)
+	keys, _ := ca.List()
+	if len(keys) > count && failed.Load() == 0 {
+		r.Violation("cache:count prune gave up above the limit", fmt.Sprintf("limit %d, %d entries: the entry picked by the count prune was used during each of %d consecutive waits in the pre hook; the prune ended with %d entries although no cleanup failed, and nothing prunes until the next Set", count, count+1, used, len(keys)), map[string]any{"mode": "5c", "count": count, "uses": used, "left": fmt.Sprint(keys)})
+	}
+	r.Distinct("configs", fmt.Sprintf("block/5c/%d/%d", count, rounds))
+	_ = ca.DeleteAll()
+}
+
 func main() {
 	r := vh.Start()
 	_ = rand.Int
@@ -1004,9 +1081,14 @@ func main() {
 			blockRun(r, i-nc-nl-nk)
 		}
 	})
-	r.Count("runs", nc+nl+nk+nb)
+	nv := r.N(24, 400)
+	for i := 0; i < nv; i++ {
+		countPruneVictimKeptBusy(r, i)
+	}
+	r.Require("busy_victim_trials", int64(nv/2))
+	r.Count("runs", nc+nl+nk+nb+nv)
 	r.Require("block_observations_before_release", int64(nb*2/5))
 	r.Require("cleanups_logged", 200)
 	r.Require("lru_comparisons", 50)
-	r.Finish("three workload families on the real cache.Cache with harness-owned callbacks: (1) concurrent Set/Get/Delete/DeleteAll by 1-4 workers on 6 keys (shared or owned), Age in {0,15,40ms}, Count in {0,1,2,3,10}, failing and slow cleanups, optional pre/post hooks; (2) sequential LRU scenarios with logical clocks; (3) keep-alive / failing-cleanup expiry scenarios; (4) parked callbacks: Delete/DeleteAll with the cleanup parked on a gate (observers must still see the entry, outcome follows the cleanup result) timer expiry with the pre hook parked while the entry is used or replaced, timer expiry with the cleanup itself parked while an observer asks for the entry, and a count prune parked in its pre hook while the entry it picked is used. A case is one run; distinct = distinct configurations (age/count/failRate/workers/hooks/sharing)", "runs", "configs")
+	r.Finish("three workload families on the real cache.Cache with harness-owned callbacks: (1) concurrent Set/Get/Delete/DeleteAll by 1-4 workers on 6 keys (shared or owned), Age in {0,15,40ms}, Count in {0,1,2,3,10}, failing and slow cleanups, optional pre/post hooks; (2) sequential LRU scenarios with logical clocks; (3) keep-alive / failing-cleanup expiry scenarios; (4) parked callbacks: Delete/DeleteAll with the cleanup parked on a gate (observers must still see the entry, outcome follows the cleanup result) timer expiry with the pre hook parked while the entry is used or replaced, timer expiry with the cleanup itself parked while an observer asks for the entry, and a count prune parked in its pre hook while the entry it picked is used (once; the next victim instead; every victim of 14-50 consecutive waits - the pass must neither evict a used entry nor give up above the limit). A case is one run; distinct = distinct configurations (age/count/failRate/workers/hooks/sharing)", "runs", "configs")
 }
